@@ -6,9 +6,12 @@
       results = {sentence number: [json_of(tree) + {'log_prob': score}, …], …}
       json.dumps(results, indent=4)
 
-  Scores are `k/64` (exact binary fractions with at most six decimals: `repr` prints the exact
-  decimal expansion, no exponent below 1e16); the failure placeholder's `-inf` prints as
-  `-Infinity`.
+  Scores are `k/64` (exact binary fractions with at most six decimals). `repr` prints the shortest
+  decimal text that reads back as the same double; for a value whose exact expansion has at most 15
+  significant digits (`|k| * 15625 < 10^15`, i.e. scores below 10^9 in magnitude — log-probability
+  sums are nowhere near) that text is the exact expansion, which is what `jsonFloat` computes;
+  beyond that `repr` may drop digits (observed: 13448972401702.3125 prints as 13448972401702.312)
+  and the model does not claim the spelling. The failure placeholder's `-inf` prints as `-Infinity`.
 -/
 import Depccg.Print.More
 
